@@ -29,6 +29,22 @@ pub struct ExErrorKind(::std::io::ErrorKind);
 #[verifier::external_body]
 pub struct ExOsString(::std::ffi::OsString);
 
+#[verifier::external_type_specification]
+#[verifier::external_body]
+pub struct ExOsStr(::std::ffi::OsStr);
+
+pub uninterp spec fn osstr_bytes(s: &::std::ffi::OsStr) -> Seq<u8>;
+
+pub assume_specification[ <::std::ffi::OsString as ::std::ops::Deref>::deref ](s: &::std::ffi::OsString) -> (r: &::std::ffi::OsStr)
+    ensures
+        osstr_bytes(r) == os_bytes(*s),
+;
+
+pub assume_specification[ ::std::ffi::OsStr::as_encoded_bytes ](s: &::std::ffi::OsStr) -> (r: &[u8])
+    ensures
+        r@ == osstr_bytes(s),
+;
+
 // ---- views -----------------------------------------------------------------------------------
 /// The resolved component list a path-like value denotes (uninterpreted; one generic function so
 /// that generic std signatures such as `Cow<B>::deref` can relate their argument and result).
@@ -379,6 +395,7 @@ pub mod filetime {
             final(w).stepped(*old(w)),
             final(w).inv(),
             final(w).now == old(w).now,
+                final(w).listed == old(w).listed,
             final(w).opens == old(w).opens,
             final(w).published == old(w).published,
             match r {
@@ -417,6 +434,7 @@ pub mod filetime {
             final(w).stepped(*old(w)),
             final(w).inv(),
             final(w).now == old(w).now,
+                final(w).listed == old(w).listed,
             final(w).opens == old(w).opens,
             final(w).published == old(w).published,
             match r {
@@ -453,6 +471,7 @@ pub mod filetime {
             final(w).stepped(*old(w)),
             final(w).inv(),
             final(w).now == old(w).now,
+                final(w).listed == old(w).listed,
             final(w).opens == old(w).opens,
             final(w).published == old(w).published,
             match r {
@@ -600,6 +619,7 @@ pub mod std {
                     final(w).stepped(*old(w)),
                     final(w).inv(),
                     final(w).now == old(w).now,
+                final(w).listed == old(w).listed,
                     final(w).opens == old(w).opens + 1,
                     final(w).published == old(w).published,
                     match r {
@@ -636,6 +656,7 @@ pub mod std {
                     final(w).stepped(*old(w)),
                     final(w).inv(),
                     final(w).now == old(w).now,
+                final(w).listed == old(w).listed,
                     final(w).opens == old(w).opens,
                     final(w).published == old(w).published,
                     final(w).same_fs(*old(w)),
@@ -664,6 +685,7 @@ pub mod std {
                 final(w).stepped(*old(w)),
                 final(w).inv(),
                 final(w).now == old(w).now,
+                final(w).listed == old(w).listed,
                 final(w).opens == old(w).opens,
                 final(w).published == old(w).published,
                 match r {
@@ -693,6 +715,7 @@ pub mod std {
                 final(w).stepped(*old(w)),
                 final(w).inv(),
                 final(w).now == old(w).now,
+                final(w).listed == old(w).listed,
                 final(w).opens == old(w).opens,
                 final(w).published == old(w).published,
                 final(w).same_fs(*old(w)),
@@ -725,6 +748,7 @@ pub mod std {
                 final(w).stepped(*old(w)),
                 final(w).inv(),
                 final(w).now == old(w).now,
+                final(w).listed == old(w).listed,
                 final(w).opens == old(w).opens,
                 final(w).published == old(w).published,
                 final(w).same_fs(*old(w)),
@@ -753,6 +777,7 @@ pub mod std {
                 final(w).stepped(*old(w)),
                 final(w).inv(),
                 final(w).now == old(w).now,
+                final(w).listed == old(w).listed,
                 final(w).opens == old(w).opens,
                 final(w).published == old(w).published,
                 match r {
@@ -790,6 +815,7 @@ pub mod std {
                 final(w).stepped(*old(w)),
                 final(w).inv(),
                 final(w).now == old(w).now,
+                final(w).listed == old(w).listed,
                 final(w).opens == old(w).opens,
                 final(w).published == old(w).published + if r.is_ok() { 1nat } else { 0nat },
                 match r {
@@ -823,6 +849,7 @@ pub mod std {
                 final(w).stepped(*old(w)),
                 final(w).inv(),
                 final(w).now == old(w).now,
+                final(w).listed == old(w).listed,
                 final(w).opens == old(w).opens,
                 final(w).published == old(w).published + if r.is_ok() { 1nat } else { 0nat },
                 match r {
@@ -858,6 +885,7 @@ pub mod std {
                 final(w).stepped(*old(w)),
                 final(w).inv(),
                 final(w).now == old(w).now,
+                final(w).listed == old(w).listed,
                 final(w).opens == old(w).opens,
                 final(w).published == old(w).published,
                 final(w).files == old(w).files,
@@ -899,6 +927,7 @@ pub mod std {
                     final(w).stepped(*old(w)),
                     final(w).inv(),
                     final(w).now == old(w).now,
+                final(w).listed == old(w).listed,
                     final(w).opens == old(w).opens,
                     final(w).published == old(w).published,
                     final(w).same_fs(*old(w)),
@@ -952,6 +981,7 @@ pub mod std {
                     final(w).stepped(*old(w)),
                     final(w).inv(),
                     final(w).now == old(w).now,
+                final(w).listed == old(w).listed + if r.is_some() { 1nat } else { 0nat },
                     final(w).opens == old(w).opens,
                     final(w).published == old(w).published,
                     final(w).same_fs(*old(w)),
@@ -986,6 +1016,7 @@ pub mod std {
                 final(w).stepped(*old(w)),
                 final(w).inv(),
                 final(w).now == old(w).now,
+                final(w).listed == old(w).listed,
                 final(w).opens == old(w).opens + 1,
                 final(w).published == old(w).published,
                 final(w).same_fs(*old(w)),
